@@ -7,6 +7,7 @@ import (
 	"fmt"
 	"net"
 	"runtime"
+	"strings"
 	"time"
 
 	"gitlab.com/aquachain/aquachain/crypto"
@@ -234,6 +235,41 @@ func handshake(c *vh.Ctx, m *vh.Model) func() {
 			ans = "ok" + ans[8:] // authRespV4 does not record which format it came in
 		}
 		c.Correspond("readHandshakeMsg~read_handshake_msg", fmt.Sprintf("ack=%v %s", ack, vh.Hex(clipb(stream))), obs, ans)
+		// 2b. staging of receiverEncHandshake = readHandshakeMsg ; handleAuthMsg, the three primitive
+		// checks evaluated independently as oracle bits
+		if !ack {
+			var sig, pub, nonce []byte
+			switch {
+			case pl != "none":
+				d := vh.UnHex(pl)
+				if len(d) >= 193 {
+					sig, pub, nonce = d[:65], d[97:161], d[161:193]
+				}
+			case e8 != "none":
+				var am struct {
+					Sig     [65]byte
+					Pub     [64]byte
+					Nonce   [32]byte
+					Version uint
+					Rest    []rlp.RawValue `rlp:"tail"`
+				}
+				if rlp.NewStream(bytes.NewReader(vh.UnHex(e8)), 0).Decode(&am) == nil {
+					sig, pub, nonce = am.Sig[:], am.Pub[:], am.Nonce[:]
+				}
+			}
+			b1, b2, b3 := false, false, false
+			if sig != nil {
+				b1, b2, b3 = p2p.VerifAuthChecks(kR.prv, sig, pub, nonce)
+			}
+			var stage string
+			if sp, spv := vh.CatchPanic(func() { stage = p2p.VerifReceiverStage(bytes.NewReader(stream), kR.prv) }); sp {
+				c.Violate("handshake-panic/"+vh.Hex(clipb(stream)), fmt.Sprintf("handleAuthMsg panics: %v", spv), rep)
+			} else {
+				c.Count("handshake/stage-" + stage)
+				c.Correspond("receiverEncHandshake stages~receiver_handshake", vh.Hex(clipb(stream)), stage,
+					m.Ask(fmt.Sprintf("rhs %s %s %s %s %s %s", vh.Hex(stream), pl, e8, b01(b1), b01(b2), b01(b3))))
+			}
+		}
 		// 3. the whole handshake function on the same bytes: never a panic, never a hang
 		done := make(chan struct{})
 		var hp bool
@@ -359,6 +395,7 @@ func handshake(c *vh.Ctx, m *vh.Model) func() {
 		ack := r.Bool()
 		probe("random", ack, r.Bytes([]int{0, 1, 2, 209, 210, 211, 306, 307, 308, 600}[r.Intn(10)]))
 	}
+	protoHandshakeProbes(c, m, r)
 	// collected at the very end of the run: the time-out probes
 	return func() {
 		for _, t := range probes {
@@ -368,5 +405,92 @@ func handshake(c *vh.Ctx, m *vh.Model) func() {
 				c.Violate("handshake-timeout/"+t.name+"/"+res, "encryption handshake against a stalling peer: "+res+" (expected an error within handshakeTimeout)", H{"kind": "handshake-timeout", "probe": t.name})
 			}
 		}
+	}
+}
+
+// readProtocolHandshake (p2p/rlpx.go): the first framed message of a connection — size gate,
+// code dispatch, typed body, zero identity — against Net/Handshake.v read_protocol_handshake.
+func protoHandshakeProbes(c *vh.Ctx, m *vh.Model, r *vh.RNG) {
+	type capT struct {
+		Name    string
+		Version uint
+	}
+	mk := func(ver uint64, name string, caps interface{}, port uint64, id []byte, rest ...interface{}) []byte {
+		v := []interface{}{ver, name, caps, port, id}
+		v = append(v, rest...)
+		b, _ := rlp.EncodeToBytes(v)
+		return b
+	}
+	id := r.Bytes(64)
+	caps := []capT{{"aqua", 64}, {"aqua", 65}}
+	base := mk(5, "aquachain/v1.7", caps, 21303, id)
+	pad := func(total int) []byte { // a valid handshake of exactly `total` bytes
+		for n := 0; n < 4000; n++ {
+			if b := mk(5, strings.Repeat("x", n), caps, 21303, id); len(b) == total {
+				return b
+			}
+		}
+		return nil
+	}
+	type pc struct {
+		name    string
+		code    uint64
+		size    int // -1: len(payload)
+		payload []byte
+	}
+	reason, _ := rlp.EncodeToBytes([]uint{4})
+	cases := []pc{
+		{"valid", 0, -1, base}, {"valid+rest", 0, -1, mk(5, "n", caps, 0, id, uint(7), []byte{1, 2})}, {"no-caps", 0, -1, mk(5, "n", []capT{}, 0, id)},
+		{"zero-id", 0, -1, mk(5, "n", caps, 0, make([]byte, 64))}, {"short-id", 0, -1, mk(5, "n", caps, 0, id[:63])},
+		{"cap-extra-field", 0, -1, mk(5, "n", []interface{}{[]interface{}{"aqua", uint(1), uint(2)}}, 0, id)},
+		{"version-9-bytes", 0, -1, mk(5, "n", caps, 0, id)[:0]},
+		{"size-2047", 0, -1, pad(2047)}, {"size-2048", 0, -1, pad(2048)}, {"size-2049", 0, -1, pad(2049)}, {"size-3000", 0, -1, pad(3000)},
+		{"declared-huge", 0, 1<<24 - 1, base}, {"declared-2049-short-payload", 0, 2049, base}, {"declared-smaller", 0, len(base) - 3, base}, {"declared-larger", 0, len(base) + 50, base},
+		{"disc-valid", 1, -1, reason}, {"disc-garbage", 1, -1, r.Bytes(9)}, {"disc-empty", 1, 0, nil}, {"disc-too-big", 1, 4000, reason},
+		{"ping-code", 2, -1, base}, {"subproto-code", 16, -1, base}, {"code-2^63", 1 << 63, -1, base}, {"empty", 0, 0, nil}, {"empty-list", 0, -1, []byte{0xc0}},
+	}
+	for l := 0; l < len(base); l += 1 + r.Intn(c.Scale(6, 1)) {
+		cases = append(cases, pc{"truncated", 0, -1, base[:l]})
+	}
+	for i := 0; i < c.Scale(40, len(base)*3); i++ {
+		t := append([]byte(nil), base...)
+		t[r.Intn(len(t))] ^= byte(1 + r.Intn(255))
+		cases = append(cases, pc{"mutated", 0, -1, t})
+	}
+	for i := 0; i < c.Scale(20, 300); i++ {
+		cases = append(cases, pc{"random", uint64(r.Intn(3)), -1, r.Bytes(r.Intn(120))})
+	}
+	for _, x := range cases {
+		if x.payload == nil && x.size != 0 && x.name != "empty" {
+			if x.name[:4] == "size" {
+				c.Fatal("could not build a protocol handshake for case %s", x.name)
+			}
+		}
+		size := x.size
+		if size < 0 {
+			size = len(x.payload)
+		}
+		var cls string
+		var pid discover.NodeID
+		p, pv := vh.CatchPanic(func() { cls, pid = p2p.VerifReadProtocolHandshake(x.code, uint32(size), x.payload) })
+		key := ""
+		if cls == "ok" {
+			key = vh.Hex(x.payload)
+		}
+		c.Eval("protohandshake/"+x.name, key)
+		c.Count("protohandshake/result-" + cls)
+		if p {
+			c.Violate("protohandshake-panic/"+vh.Hex(clipb(x.payload)), fmt.Sprintf("readProtocolHandshake panics: %v", pv), H{"kind": "protohandshake", "code": x.code, "size": size, "payload": vh.Hex(x.payload)})
+			continue
+		}
+		if cls == "ok" && size > p2p.VerifBaseProtocolMaxMsgSize {
+			c.Violate("protohandshake-oversize-accepted", "a protocol handshake larger than baseProtocolMaxMsgSize was accepted", H{"kind": "protohandshake", "size": size})
+		}
+		obs := cls
+		if cls == "ok" {
+			obs = "ok " + vh.Hex(pid[:])
+		}
+		c.Correspond("readProtocolHandshake~read_protocol_handshake", fmt.Sprintf("%s code=%d size=%d", x.name, x.code, size), obs,
+			m.Ask(fmt.Sprintf("phs %d %d %s", x.code, size, vh.Hex(x.payload))))
 	}
 }
